@@ -435,6 +435,8 @@ def route_checks(ctx: Ctx, tabs):
     def build(meth, req, cache):
         with warnings.catch_warnings():
             warnings.simplefilter("ignore")
+            if "_pos" in req:
+                return ga.AngularGrid(req["_pos"], method=meth, cache=cache)
             return ga.AngularGrid(method=meth, cache=cache, **req)
 
     def edit(g):
@@ -450,35 +452,62 @@ def route_checks(ctx: Ctx, tabs):
         for meth, P, _, dirn in c12.METHODS:
             t = tabs[f"{P}_DEGREES"]
             degs = sorted(t)[: (3 if ctx.quick else 6)]
+            # argument forms: the method name is case-insensitive; degree / size may be any value that is rounded up to a
+            # shipped grid, a NumPy integer, or (degree) positional
+            mixed = "".join(ch.upper() if i % 2 == 0 else ch for i, ch in enumerate(meth))
+            spellings = [meth] + [s_ for s_ in dict.fromkeys([meth.upper(), meth.title(), mixed]) if s_ != meth]
             for d in degs:
                 size = t[d]
                 with np.load(file_path(meth, dirn, d, size)) as zf:
                     fp, fw = np.array(zf["points"]), np.array(zf["weights"])
                 fw = np.repeat(fw, len(fp)) if len(fw) == 1 else fw
                 fsum = math.fsum(fw)
-                for rname, req in (("degree", {"degree": d}), ("size", {"size": size})):
-                    rq = ", ".join(f"{k}={v}" for k, v in req.items())
-                    routes = []  # (label, steps) ; a step is ("build", cache) or ("edit",) ; the last built grid is judged
-                    for c in (False, True):
-                        routes.append((f"cold;cache={c}", [("build", c)]))
-                        routes.append((f"cold;cache=True;then cache={c}", [("build", True), ("build", c)]))
-                        routes.append((f"cold;cache=False;then cache={c}", [("build", False), ("build", c)]))
-                        for c0 in (False, True):
-                            routes.append((f"cold;cache={c0};edit in place;then cache={c}", [("build", c0), ("edit",), ("build", c)]))
-                    routes.append(("cold;cache=True;edit in place;cache=True;edit in place;then cache=True",
-                                   [("build", True), ("edit",), ("build", True), ("edit",), ("build", True)]))
+                forms = [("degree", {"degree": d}, f"degree={d}"), ("size", {"size": size}, f"size={size}")]
+                extra = [("degree-pos", {"_pos": d}, f"{d}"), ("degree-np", {"degree": np.int64(d)}, f"degree=np.int64({d})"), ("size-np", {"size": np.int64(size)}, f"size=np.int64({size})")]
+                if d - 1 >= 0 and (d - 1) not in t:
+                    extra.append(("degree-up", {"degree": d - 1}, f"degree={d - 1}"))
+                if size - 1 >= 1 and (size - 1) not in tabs[f"{P}_NPOINTS"] and all(not (size - 1 <= s_ < size) for s_ in tabs[f"{P}_NPOINTS"]):
+                    extra.append(("size-up", {"size": size - 1}, f"size={size - 1}"))
+                plans = []  # (spelling(s), request form, full route set?)
+                for fm in forms:
+                    plans.append((meth, fm, True))
+                for fm in extra:
+                    plans.append((meth, fm, False))
+                for sp in spellings[1:]:
+                    for fm in forms:
+                        plans.append((sp, fm, False))
+                for sp0, (rname, req, rq), full in plans:
+                    routes = []  # (label, steps) ; a step is ("build", cache[, spelling]) or ("edit",) ; the last built grid is judged
+                    if full:
+                        for c in (False, True):
+                            routes.append((f"cold;cache={c}", [("build", c)]))
+                            routes.append((f"cold;cache=True;then cache={c}", [("build", True), ("build", c)]))
+                            routes.append((f"cold;cache=False;then cache={c}", [("build", False), ("build", c)]))
+                            for c0 in (False, True):
+                                routes.append((f"cold;cache={c0};edit in place;then cache={c}", [("build", c0), ("edit",), ("build", c)]))
+                        routes.append(("cold;cache=True;edit in place;cache=True;edit in place;then cache=True",
+                                       [("build", True), ("edit",), ("build", True), ("edit",), ("build", True)]))
+                    else:
+                        routes.append(("cold;cache=False", [("build", False)]))
+                        routes.append(("cold;cache=True", [("build", True)]))
+                        routes.append(("cold;cache=True;then cache=True", [("build", True), ("build", True)]))
+                        routes.append(("cold;cache=True;edit in place;then cache=True", [("build", True), ("edit",), ("build", True)]))
+                        if sp0 != meth:  # the same grid requested under two spellings in one process, both orders
+                            routes.append((f"cold;cache=True as '{meth}';then cache=True", [("build", True, meth), ("build", True)]))
+                            routes.append((f"cold;cache=True;then cache=True as '{meth}'", [("build", True), ("build", True, meth)]))
                     for label, steps in routes:
                         cold()
                         n += 1
-                        ctx.case(("route", meth, d, rname, label))
-                        key = f"route:{meth}:{rq}:{label}"
+                        ctx.case(("route", sp0, d, rname, label))
+                        key = f"route:{sp0}:{rq}:{label}"
                         script = []
                         try:
                             g = None
                             for st in steps:
                                 if st[0] == "build":
-                                    g = build(meth, req, st[1])
-                                    script.append(f"g = AngularGrid({rq}, method='{meth}', cache={st[1]})")
+                                    sp = st[2] if len(st) > 2 else sp0
+                                    g = build(sp, req, st[1])
+                                    script.append(f"g = AngularGrid({rq}, method='{sp}', cache={st[1]})")
                                 else:
                                     edit(g)
                                     script.append("w = g.weights; w *= 2.25; p = g.points; p *= 1.5")
@@ -725,7 +754,7 @@ def run(ctx: Ctx):
     per = {}
     for key, obs, text, rp in rviol:
         candidates.append((key, obs, text, rp))
-        mth = key.split(":")[1]
+        mth = key.split(":")[1].lower()
         per[mth] = per.get(mth, 0) + 1
         if per[mth] <= MAXREP:
             ctx.fail("route_history", key, obs, text, rp)
